@@ -110,9 +110,10 @@ func endTag(e *vs.End) (string, string) {
 }
 
 type itRec struct {
-	got  []int
-	err  error
-	done bool
+	got      []int
+	err      error
+	done     bool
+	afterEOF []int // values yielded by calls made after io.EOF had been returned
 }
 
 func isPrefix(p, full []int) bool {
@@ -163,6 +164,16 @@ func grow(s src, pre, nAdds, n int, release string) vs.Scenario {
 							break
 						}
 					}
+					if s.blocking && errors.Is(rec.err, io.EOF) {
+						// a blocking flavour ends with io.EOF only because the container is
+						// closed: nothing can be added any more, so asking again yields
+						// nothing more (anything it did yield would be a repetition)
+						for i := 0; i < 3; i++ {
+							if v, err := next(ctx); err == nil {
+								rec.afterEOF = append(rec.afterEOF, v)
+							}
+						}
+					}
 					rec.done = true
 					fin <- struct{}{}
 				}()
@@ -204,6 +215,9 @@ func grow(s src, pre, nAdds, n int, release string) vs.Scenario {
 			for i, rec := range recs {
 				if rec == nil {
 					continue
+				}
+				if len(rec.afterEOF) > 0 {
+					return "yielded-after-eof", fmt.Sprintf("%s iterator %d returned io.EOF after %v and then, asked again, yielded %v", s.name, i, rec.got, rec.afterEOF)
 				}
 				if !isPrefix(rec.got, want) {
 					return "order-or-duplicate", fmt.Sprintf("%s iterator %d yielded %v, container order is %v", s.name, i, rec.got, want)
